@@ -53,6 +53,8 @@ impl FormMultipartData {
                 mut bytes_read: i128,
                 total_bytes: i128,
                 mut part_list: Vec<Part>) -> Result<Vec<Part>, String> {
+      // one iteration per body part (a call per part exhausted the stack on bodies with hundreds of small parts)
+      loop {
         let mut buf = vec![];
         let mut part = Part { headers: vec![], body: vec![] };
 
@@ -202,8 +204,7 @@ impl FormMultipartData {
         if bytes_read == total_bytes as i128 {
             return Ok(part_list)
         }
-
-        FormMultipartData::parse_form_part_recursively(cursor, boundary, bytes_read, total_bytes, part_list)
+      }
     }
 
     pub fn extract_boundary(content_type: &str) -> Result<String, String> {
